@@ -138,7 +138,9 @@ pub fn kind_of(s: &dyn Scenario, tier: Tier, idx: u64) -> RunKind {
 pub fn run_guarded(s: &dyn Scenario, kind: RunKind, tier: Tier, tape: Tape, log: bool) -> Result<(RunOut, Vec<u64>), String> {
     let _ = crate::exec::take_harness_fails();
     let _ = crate::exec::take_panics();
+    crate::exec::set_in_run(true);
     let res = catch_unwind(AssertUnwindSafe(|| s.run(kind, tier, tape, log)));
+    crate::exec::set_in_run(false);
     let fails = crate::exec::take_harness_fails();
     match res {
         Ok((out, tape)) => {
